@@ -35,9 +35,13 @@ Effect(opt, f) ==
     [] opt.o = "pch"      -> f.pch
     [] OTHER -> TRUE
 \* combinations that the toolchain itself cannot satisfy (not bfg9000's doing)
+SharedLibFiles == {"libext.so", "libext.api.so", "libext-1.2.so", "libext.so.x.so"}
 Incompatible(a, b) == {a.o, b.o} = {"sanitize", "static"}
                       \/ ({a.o, b.o} = {"optimize"} /\ a.v # b.v)
                       \/ ({a.o, b.o} = {"std"} /\ a.v # b.v)
                       \/ ({a.o, b.o} = {"warning"} /\ a.v # b.v)
                       \/ ({a.o, b.o} = {"define"} /\ a.v # b.v)
+                      \/ ({a.o, b.o} = {"lib"} /\ a.v # b.v)        \* two definitions of the same function
+                      \* a fully static link cannot take a shared object
+                      \/ (\E x \in {a, b}, y \in {a, b} : x.o = "static" /\ y.o = "lib" /\ y.v \in SharedLibFiles)
 =============================================================================
